@@ -161,7 +161,8 @@ fn view(ws: &Worksheet) -> Value {
         dig(&ws.get_tab_color()),
         dig(ws.get_state()),
         dig(&ws.get_code_name()),
-        dig(&ws.get_defined_names()),
+        // defined names of a sheet carry the sheet's own name (set_sheet_name rewrites them): rendered relative to it
+        dig(&format!("{:?}", ws.get_defined_names()).replace(&format!("{:?}", ws.get_name()), "<own sheet name>")),
     ];
     marks.sort();
     json!({
